@@ -738,6 +738,7 @@ func (sm *ServerManager) CleanupHlsIfNeeded(appName string, streamName string, p
 					}
 				}
 
+				verifCleanupGate(sn)
 				Log.Infof("cleanup hls file path. streamName=%s, path=%s", sn, outPath)
 				if err := hls.RemoveAll(outPath); err != nil {
 					Log.Warnf("cleanup hls file path error. path=%s, err=%+v", outPath, err)
